@@ -44,6 +44,8 @@ type PCase struct {
 	// when set, the proxy is called in process with a ResponseWriter whose Write accepts at most
 	// ShortWrites[k % len] bytes on its k-th call (a short write, no error)
 	ShortWrites []int `json:"shortWrites,omitempty"`
+	// gzip only: the body is this many concatenated gzip members (RFC 1952 2.2), 0 or 1 = a single one
+	Members int `json:"members,omitempty"`
 }
 
 // a ResponseWriter that takes fewer bytes than offered
@@ -156,9 +158,15 @@ func runProxyCase(c *PCase, rng *Rng) (line string, obs map[string]interface{}, 
 	wire := payload
 	if c.Gzip {
 		var zb bytes.Buffer
-		zw := gzip.NewWriter(&zb)
-		_, _ = zw.Write(payload)
-		_ = zw.Close()
+		m := c.Members
+		if m < 1 {
+			m = 1
+		}
+		for k := 0; k < m; k++ {
+			zw := gzip.NewWriter(&zb)
+			_, _ = zw.Write(payload[k*len(payload)/m : (k+1)*len(payload)/m])
+			_ = zw.Close()
+		}
 		wire = zb.Bytes()
 	}
 	sizes := []int{}
@@ -580,6 +588,16 @@ func runProxy(a Args) *Result {
 			}
 		}
 	}
+	// gzip bodies made of several members (an exporter that compresses and flushes section by section):
+	// a plain Prometheus reads them as one body
+	for _, m := range []int{2, 3, 5} {
+		for _, size := range []int{160, 3000, 80000} {
+			for _, asg := range []bool{true, false} {
+				cases = append(cases, &PCase{JobKnown: true, HashOk: true, Assigned: asg, Code: 200, Gzip: true, Members: m, Payload: "many", Size: size,
+					Reads: []PChunk{{N: 4096}, {N: 1}, {N: 700}}, CutAt: -1})
+			}
+		}
+	}
 	var lines []string
 	var kept []*PCase
 	var keptObs []map[string]interface{}
@@ -632,6 +650,9 @@ func runProxy(a Args) *Result {
 			tag = strings.TrimSpace(ans[idx+6:])
 		}
 		res.count("tag_" + tag)
+		if kept[i].Members > 1 {
+			res.count("gzip_multi_member")
+		}
 		if kept[i].Gzip {
 			res.count("gzip")
 		}
